@@ -1,3 +1,48 @@
+/-
+  PrtpyProofs.Cover34 — property C10 for the three-quarters bin-covering algorithm
+  (`cflz_covering.threequarters`, the "Improved Simple Heuristic" of Csirik, Frenk, Labbé, Zhang 1999):
+
+      if `m` bins can be covered at all, then   3 * m ≤ 4 * ALG + 9     (requested: `+ 16`),
+      i.e.  ALG ≥ 3/4 · OPT − 9/4.
+
+  Proof: one weighting argument with a *three-step staircase* (the two-step profile `phi` of Cover23 with one
+  more step).  For parameters `c ≤ p`, `c + 2p = 6B` let
+
+      σ(z) = min z c + min (z ∸ p) c + min (z ∸ 2p) c
+             (slope 1 on [0,c], [p,p+c], [2p,2p+c = 6B], flat in between and afterwards)
+
+  and give the item `y` the weight `σ (6·v y)`.  `σ` is sub-additive (`stair_subadd`, by `omega`) and
+  `σ z = 3c` for `z ≥ 6B`, so every collection of items whose values total `≥ B` weighs `≥ 3c`
+  (`group_weight`); no case distinction on the shape of the optimum's bins is needed.  A small item weighs
+  `min (6v) c`, a medium item `c + (6v ∸ p)`, a big item at most `2c` if `6v ≤ 2p` and at most
+  `2c + 6v − 2p` if `6v ≥ 2p`.  For `c = p = 2B` the weight is the value capped at `B`.
+
+  On the algorithm's side (`Textbook.threeClass`, `Textbook.threeQuarters_eq_spec`) the parameters are read off
+  the state in which the small items have run out (`finalW`): with `t` the largest remaining big item below `B`
+  and `y₂` the second largest remaining medium item,
+
+      p = max (2B) (3t) (18·y₂ − 6B),   c = 6B − 2p          ("γ = min(B/3, B − t, 3(B − 2y₂))", c = 6γ).
+
+  Then in the last phase (next-fit on big, then medium items) two big items weigh `≤ 4c`, three medium items
+  (all but the largest one) weigh `≤ 4c` (`nf_big`, `nf_med_count`, `binSum_wt_med`); every opening of the main
+  phase has value `≥ 2p/6` (`Inv`: the openings are non-increasing, and `2p/6` is at most the value of a later
+  opening), so a bin "opening + small items", which was below `B` before its last item, weighs
+  `≤ (2c + 6·opening − 2p) + 6·(others) + c < 4c` (`opening_facts`).  The single pair of medium items that
+  straddles the middle step `p` is paid by the budget `phiY ≤ c/2`.  If the big and medium items run out first,
+  `c = p = 2B` and every bin has (capped) sum `< 4B/3` (`nf_small`).  Altogether (`mainW`)
+
+      3·weight(items) ≤ 12c·ALG + 26c + 3·phiY,   2·phiY ≤ c,   3c·m ≤ weight(items),
+
+  hence `18m ≤ 24·ALG + 55`, i.e. `3m ≤ 4·ALG + 9`.
+
+  Deliverables: (i) structure of the run: `opening_cases`, `threeClass_main_step`, `main_bin_sum`,
+  `threeClass_nilZ`, `threeClass_nilXY`, `nf_small`, `nf_big`, `nf_med_count`;  (ii) `threeQuarters_no_medium`,
+  (iii) `threeQuarters_no_big` (special cases of the theorem);  (iv) `threeQuarters_three_quarters`
+  (as requested), `threeQuarters_three_quarters_strong` (`+ 9`, no positivity), `..._coverableL`, `..._opt`.
+
+  Brute force (all multisets of ≤ 8 values from 1..6 for B = 6, ≤ 6 values from 1..12 for B = 12, model against
+  `optCover`): the largest value of `3·OPT − 4·ALG` is `2` (e.g. B = 12, `[5, 5, 4, 4, 3, 3]`: OPT 2, ALG 1).
+-/
 import Prtpy
 import PrtpyProofs.Part
 import PrtpyProofs.Cover
@@ -896,3 +941,24 @@ example : 3 * 2 ≤ 4 * (threeQuarters id 12 [5, 5, 4, 4, 3, 3]).lists.length + 
   threeQuarters_no_big (by decide) (by decide) example_no_big
 
 end Prtpy.Cover34
+
+/-
+#print axioms Prtpy.Cover34.threeQuarters_three_quarters
+  'Prtpy.Cover34.threeQuarters_three_quarters' depends on axioms: [propext, Classical.choice, Quot.sound]
+#print axioms Prtpy.Cover34.threeQuarters_three_quarters_strong
+  'Prtpy.Cover34.threeQuarters_three_quarters_strong' depends on axioms: [propext, Classical.choice, Quot.sound]
+#print axioms Prtpy.Cover34.threeQuarters_three_quarters_coverableL
+  'Prtpy.Cover34.threeQuarters_three_quarters_coverableL' depends on axioms: [propext, Classical.choice, Quot.sound]
+#print axioms Prtpy.Cover34.threeQuarters_three_quarters_opt
+  'Prtpy.Cover34.threeQuarters_three_quarters_opt' depends on axioms: [propext, Classical.choice, Quot.sound]
+#print axioms Prtpy.Cover34.threeQuarters_no_medium
+  'Prtpy.Cover34.threeQuarters_no_medium' depends on axioms: [propext, Classical.choice, Quot.sound]
+#print axioms Prtpy.Cover34.threeQuarters_no_big
+  'Prtpy.Cover34.threeQuarters_no_big' depends on axioms: [propext, Classical.choice, Quot.sound]
+#print axioms Prtpy.Cover34.threeClass_main_step
+  'Prtpy.Cover34.threeClass_main_step' depends on axioms: [propext, Quot.sound]
+#print axioms Prtpy.Cover34.main_bin_sum
+  'Prtpy.Cover34.main_bin_sum' depends on axioms: [propext, Classical.choice, Quot.sound]
+#print axioms Prtpy.Cover34.mainW
+  'Prtpy.Cover34.mainW' depends on axioms: [propext, Classical.choice, Quot.sound]
+-/
